@@ -350,7 +350,7 @@ def synthetic_covered(c):
     return all(len(cl) == len(set(cl)) for cl in c['cells'])
 
 
-def screen_batch(cases, timeout=170):
+def screen_batch(cases, timeout=1500):
     """uncertified screening in the implementation process: indices of cases whose ingroup differs from a brute-force labelling"""
     nb = min(C.NPROC, max(1, len(cases)))
     batches = [cases[i::nb] for i in range(nb)]
@@ -366,7 +366,7 @@ def run_synthetic(cases):
         return []
     nb = min(C.NPROC, len(cases))
     batches = [cases[i::nb] for i in range(nb)]
-    outs = C.run_impl_parallel('c05_impl.py', [{'mode': 'synthetic', 'cases': b} for b in batches], timeout=150)
+    outs = C.run_impl_parallel('c05_impl.py', [{'mode': 'synthetic', 'cases': b} for b in batches], timeout=1500)
     results = [None] * len(cases)
     for bi, o in enumerate(outs):
         for k, r in enumerate(o['results']):
@@ -428,7 +428,7 @@ def admissible(c):
 def run_batch(cases):
     nb = min(C.NPROC, max(1, len(cases)))
     batches = [cases[i::nb] for i in range(nb)]
-    outs = C.run_impl_parallel('c05_impl.py', batches, timeout=150)
+    outs = C.run_impl_parallel('c05_impl.py', batches, timeout=1500)
     results = [None] * len(cases)
     for bi, o in enumerate(outs):
         for k, r in enumerate(o['results']):
